@@ -24,6 +24,7 @@ type Item struct {
 	G        *GenUnit
 	O        *Obligation
 	Script   string
+	ScriptQF string
 	Res      SolveResult
 	Status   string // discharged | known-finding | violation
 	Finding  *Finding
@@ -148,6 +149,20 @@ func checkMain(args []string) int {
 				as = append(append(append([]*Term{}, as...), g.WatchAssumes...), o.Local...)
 			}
 			it.Script = script(as, o.Cond, append(g.E.inputTerms(), g.WatchNames...))
+			// fallback query: the same goal under the quantifier-free assumptions only (fewer assumptions: an unsat
+			// answer is still a proof; it keeps arithmetic goals out of the solvers' quantifier mode)
+			nq := 0
+			var qf []*Term
+			for _, a := range as {
+				if hasBound(a) {
+					nq++
+				} else {
+					qf = append(qf, a)
+				}
+			}
+			if nq > 0 && !hasBound(o.Cond) {
+				it.ScriptQF = script(qf, o.Cond, nil)
+			}
 			items = append(items, it)
 		}
 		for _, tn := range g.E.trivial {
@@ -169,6 +184,14 @@ func checkMain(args []string) int {
 			return
 		}
 		it.Res = solvePortfolio(it.Script, secs, seed)
+		if it.Res.Verdict == "unknown" && it.ScriptQF != "" {
+			r := solvePortfolio(it.ScriptQF, secs, seed)
+			if r.Verdict == "unsat" {
+				r.Solver += " (quantifier-free assumptions only)"
+				r.Secs += it.Res.Secs
+				it.Res = r
+			}
+		}
 	})
 	// ---- known findings: re-prove the failed obligation with the finding's input class excluded ----
 	for _, it := range items {
@@ -185,7 +208,7 @@ func checkMain(args []string) int {
 		if len(fds) == 0 {
 			continue
 		}
-		excl, err := it.G.classTerm(fds)
+		excl, err := it.G.classTerm(fds, it.O)
 		if err != nil {
 			fmt.Fprintf(os.Stderr, "govc: finding class for %s: %v\n", it.O.Name, err)
 			continue
